@@ -1062,6 +1062,46 @@ int32_t jls_core_rd_fsr_data0(struct jls_core_s * self, uint16_t signal_id, int6
     return 0;
 }
 
+/**
+ * @brief Copy nbits bits from bit offset src_bit of src to bit offset dst_bit of dst.
+ *
+ * Bits are numbered LSB first.  Only the addressed bits of dst are modified, and
+ * no byte of src beyond the last addressed bit is read.
+ */
+static void bit_copy(uint8_t * dst, uint64_t dst_bit, const uint8_t * src, uint64_t src_bit, uint64_t nbits) {
+    dst += dst_bit >> 3;
+    dst_bit &= 7;
+    src += src_bit >> 3;
+    src_bit &= 7;
+    if ((0 == dst_bit) && (0 == src_bit)) {
+        size_t sz = (size_t) (nbits >> 3);
+        memcpy(dst, src, sz);
+        dst += sz;
+        src += sz;
+        nbits &= 7;
+    }
+    while (nbits) {
+        uint32_t n = 8 - (uint32_t) ((dst_bit > src_bit) ? dst_bit : src_bit);  // bits left in both current bytes
+        if (n > nbits) {
+            n = (uint32_t) nbits;
+        }
+        uint8_t v = (uint8_t) ((*src >> src_bit) & ((1U << n) - 1U));
+        uint8_t mask = (uint8_t) (((1U << n) - 1U) << dst_bit);
+        *dst = (uint8_t) ((*dst & ~mask) | (v << dst_bit));
+        src_bit += n;
+        if (src_bit >= 8) {
+            src_bit = 0;
+            ++src;
+        }
+        dst_bit += n;
+        if (dst_bit >= 8) {
+            dst_bit = 0;
+            ++dst;
+        }
+        nbits -= n;
+    }
+}
+
 int32_t jls_core_fsr(struct jls_core_s * self, uint16_t signal_id, int64_t start_sample_id,
                      void * data, int64_t data_length) {
     // start_sample_id is API zero-based
@@ -1096,8 +1136,7 @@ int32_t jls_core_fsr(struct jls_core_s * self, uint16_t signal_id, int64_t start
     int64_t chunk_sample_id;
     int64_t chunk_sample_count;
     uint8_t * u8;
-    uint8_t shift_bits = 0;
-    uint8_t shift_carry = 0;
+    uint64_t data_bit = 0;  // output position in bits, for sample sizes less than 8 bits
 
     while (data_length > 0) {
         ROE(jls_core_rd_fsr_data0(self, signal_id, start_sample_id));
@@ -1111,48 +1150,32 @@ int32_t jls_core_fsr(struct jls_core_s * self, uint16_t signal_id, int64_t start
             return JLS_ERROR_UNSPECIFIED;
         }
 
+        int64_t idx_start = 0;
         int64_t sz_samples = chunk_sample_count;
         if (start_sample_id > chunk_sample_id) {
             // should only happen on first chunk
-            int64_t idx_start = start_sample_id - chunk_sample_id;
+            idx_start = start_sample_id - chunk_sample_id;
             sz_samples = chunk_sample_count - idx_start;
-            u8 += ((idx_start * entry_size_bits) / 8);
-            switch (entry_size_bits) {
-                case 1: shift_bits = (uint8_t) (start_sample_id & 0x07); break;
-                case 4: shift_bits = (uint8_t) ((start_sample_id & 0x01) * 4); break;
-                default: break;
-            }
-            if (shift_bits) {
-                shift_carry = (*u8++) >> shift_bits;
-                uint8_t rem_bits = (uint8_t) ((start_sample_id + data_length - 1) & 0x07) + 1;
-                if ((1 == entry_size_bits) && ((8 - shift_bits + rem_bits) > 8)) {
-                    // write out carry on buffer wrap when carry + end bits exceed a byte
-                    if (data_length > sz_samples) {
-                        data_length += 8;
-                    }
-                } else if ((4 == entry_size_bits) && (sz_samples == 1)) {
-                    data_length -= sz_samples;
-                    start_sample_id += sz_samples;
-                    continue;
-                }
-            }
         }
-
         if (sz_samples > data_length) {
             sz_samples = data_length;
         }
-
-        size_t sz_bytes = (size_t) (sz_samples * entry_size_bits + 7) / 8;
-        if (shift_bits) {
-            for (size_t i = 0; i < sz_bytes; ++i) {
-                data_u8[i] = (u8[i] << (8 - shift_bits)) | shift_carry;
-                shift_carry = u8[i] >> shift_bits;
-            }
-            sz_bytes = (sz_samples * entry_size_bits) / 8;
-        } else {
-            memcpy(data_u8, u8, sz_bytes);
+        if (sz_samples <= 0) {
+            JLS_LOGE("fsr chunk does not contain sample_id %" PRIi64, start_sample_id);
+            return JLS_ERROR_NOT_FOUND;
         }
-        data_u8 += sz_bytes;
+
+        if (entry_size_bits >= 8) {
+            size_t sample_bytes = entry_size_bits / 8;
+            size_t sz_bytes = (size_t) sz_samples * sample_bytes;
+            memcpy(data_u8, u8 + (size_t) idx_start * sample_bytes, sz_bytes);
+            data_u8 += sz_bytes;
+        } else {
+            // bit-exact copy: samples may start and end anywhere within a byte
+            bit_copy(data_u8, data_bit, u8, (uint64_t) idx_start * entry_size_bits,
+                     (uint64_t) sz_samples * entry_size_bits);
+            data_bit += (uint64_t) sz_samples * entry_size_bits;
+        }
         data_length -= sz_samples;
         start_sample_id += sz_samples;
     }
